@@ -142,7 +142,14 @@ def c06 (s : SyncCase) : Option String :=
     let parentNs := getNamespace (s.hookParent h)
     let desired := (s.respChildren h).map (fun d => if getNamespace d == "" && parentNs != "" then
         (match setNestedField d (.str parentNs) ["metadata", "namespace"] with | .ok x => x | .error _ => d) else d)
-    let desired := if s.composite then desired else desired.map (stampMarker s.dcfg)
+    -- what metacontroller itself adds to the hook's objects before comparing: the decorator's marker,
+    -- and with selector generation the controller-uid label
+    let desired := if s.composite then
+        (if s.cfg.generateSelector then desired.map (fun d =>
+            let lbl := (getLabels d).getD []
+            if hasKey "controller-uid" lbl then d
+            else setStringMapAt d ["metadata", "labels"] (some (setKey "controller-uid" (.str s.parentUID) lbl))) else desired)
+      else desired.map (stampMarker s.dcfg)
     let observed := (flatHookObjects (s.hookChildren h)).map (·.2.2)
     let later := s.calls.filter (fun r => r.idx > h.idx && s.isDependent r && r.isWrite && !r.isRevision)
     let writesOn := fun (o : J) => later.filter (fun r => r.name == getName o && (r.ns == getNamespace o || r.ns == "") &&
